@@ -38,7 +38,7 @@ PROPS["C19"] = dict(
 
 PROPS["C10"] = dict(
     level="other", claimed=True, verus=True,
-    level_text='Verus (bodies cut out of /repo, abstract hash): for every well-formed tree of 2^d leaves (1 <= d < 63) and every index, prove returns Err exactly for out-of-range indices and otherwise the authentication path; verify refuses paths of fewer than 2 or more than 64 entries and indices beyond the tree the path describes, and otherwise accepts exactly when the value folded from the path along the index bits equals the root; the path returned by prove is accepted against root(); MerkleTree::new / build_merkle_nodes return exactly such a well-formed tree over the given leaves for every power-of-two leaf count (Ok iff at least 2 leaves and a power of two), the raw-pointer reinterpretation of digest slices as pairs being modelled by two specified external functions. Kani (bounded): root construction and single openings on 8 symbolic leaves, with counterexamples. Native bounded stand-in on the real batch code: every position subset of trees up to 16 leaves in three orders verifies, decompresses to the single paths and re-compresses; every single-element, shape (extra / missing leaf, node, node vector), depth and position mutation is refused without a panic.',
+    level_text='Verus (bodies cut out of /repo, abstract hash): for every well-formed tree of 2^d leaves (1 <= d < 63) and every index, prove returns Err exactly for out-of-range indices and otherwise the authentication path; verify refuses paths of fewer than 2 or more than 64 entries and indices beyond the tree the path describes, and otherwise accepts exactly when the value folded from the path along the index bits equals the root; the path returned by prove is accepted against root(); MerkleTree::new / build_merkle_nodes return exactly such a well-formed tree over the given leaves for every power-of-two leaf count (Ok iff at least 2 leaves and a power of two), the raw-pointer reinterpretation of digest slices as pairs being modelled by two specified external functions. Kani (bounded): root construction and single openings on 8 symbolic leaves, with counterexamples. Native bounded stand-in on the real batch code: every position subset of trees up to 16 leaves in three orders verifies, decompresses to the single paths and re-compresses; every single-element, shape (extra / missing leaf, node, node vector), depth and position mutation is refused without a panic (Blake3_256); for the other byte-oriented hashers the two-to-one function the tree code is generic in is compared with its definition by the stand-in hash_native (shared with C11).',
     level_note='BTreeMap-based batch code does not finish in CBMC even for concrete arguments, hence the native stand-in (bounded, not a proof). For all tree sizes construction and single openings are proved (the unsafe pairwise reinterpretation inside build_merkle_nodes is an assumption there; Kani executes the real pointer code on 8 leaves); batch openings rest on the stand-in; concurrent tree construction is not covered.',
     explanation=MIX)
 
